@@ -1,6 +1,6 @@
 # ./check configuration for C18 (merged by mc/props.py)
 PROP = dict(
-    libs=["explore", "canon", "sim", "wireobs"],
+    libs=["explore", "canon", "sim", "wireobs", "wiremon"],
     targets=[
         dict(name="e2", pkg="http3", test="TestVerifC18", files=["mc/c18/*.go"]),
         dict(name="race", pkg="http3", test="TestVerifC18Race", files=["mc/c18/*.go", "mc/c18/race/*.go"], parts=["race-pass"],
@@ -17,7 +17,7 @@ PROP = dict(
                  "bounded liveness: with <= 2 datagram faults (drop / duplicate / 1.5-RTT delay) a clean exchange must complete within 30 s of virtual time",
                  "request streams are served by the harness's own accept loop around RawServerConn.HandleRequestStream / HandleUnidirectionalStream (Server.handleConn minus graceful shutdown, plus a recover that attributes a panic to its call site); the part real-server runs the clean messages through Server.ServeListener unchanged, after a pre-run under the accept loop showed no server-side panic",
                  "forbidden-frame / forbidden-stream verdicts only where RFC 9114 and the code agree on the error and its scope; push-related frames on request streams and DATA after trailers are recorded as outcomes, not judged"],
-    level_text="Bounded-exhaustive enumeration on the real HTTP/3 client and server against a reference model of what net/http semantics and RFC 9114 require the handler / the client / the peer to observe: (lattice) every message deviating from a default request/response in <= 2 (quick) / <= 3 (thorough) of 20 dimensions - method, path, header multisets, request and response body size x write chunking, Content-Length absent/correct/too small/too large in both directions, request and response trailers, status incl. 103, gzip, 1 or 4 concurrent requests, Server.Logger / Transport.Logger nil or set, plain or Chrome_115 spec-driven QUIC client, read-buffer size, abort point; (faults) every single-fault map (drop, duplicate, delay) over ALL datagrams of the exchange, handshake included, for every 1-dimension (quick) / 2-dimension (thorough) deviation, and every 2-fault map over the first 12 (quick, 8 representative messages) / 30 (thorough, every 1-dimension deviation) datagrams of each direction; (raw, raw-client) a scripted raw QUIC peer on the client side and on the server side writing 3-frame request / response streams and unidirectional streams split into two writes at every byte offset and aborted (RESET_STREAM, STOP_SENDING, both, connection close) at every frame boundary, with unknown, reserved and misplaced frame and stream types; (real-server) the clean messages through the unchanged Server.ServeListener. The statement is a for-all over messages, chunkings, frame boundaries and fault schedules, which is what is enumerated inside the stated bound.",
+    level_text="Bounded-exhaustive enumeration on the real HTTP/3 client and server against a reference model of what net/http semantics and RFC 9114 require the handler / the client / the peer to observe: (lattice) every message deviating from a default request/response in <= 2 (quick) / <= 3 (thorough) of 20 dimensions - method, path, header multisets, request and response body size x write chunking, Content-Length absent/correct/too small/too large in both directions, request and response trailers, status incl. 103, gzip, 1 or 4 concurrent requests, Server.Logger / Transport.Logger nil or set, plain or Chrome_115 spec-driven QUIC client, read-buffer size, abort point; (faults) every single-fault map (drop, duplicate, delay) over ALL datagrams of the exchange, handshake included, for every 1-dimension (quick) / 2-dimension (thorough) deviation, and every 2-fault map over the first 12 (quick, 8 representative messages) / 30 (thorough, every 1-dimension deviation) datagrams of each direction; (raw, raw-client) a scripted raw QUIC peer on the client side and on the server side writing 3-frame request / response streams and unidirectional streams split into two writes at every byte offset and aborted (RESET_STREAM, STOP_SENDING, both, connection close) at every frame boundary, with unknown, reserved and misplaced frame and stream types; (real-server) the clean messages through the unchanged Server.ServeListener. The statement is a for-all over messages, chunkings, frame boundaries and fault schedules, which is what is enumerated inside the stated bound. The QUIC layer underneath every lattice / fault execution is read by the passive wire monitor (mc/lib/wiremon, see C01), and a sampled -race supporting pass runs the messages with four concurrent requests on one connection.",
     level_note="Trusted: testutils/simnet + testing/synctest virtual time; the byte-pattern / header-multiset reference model in mc/c18; body sizes <= 70000 bytes; goroutine schedules are not enumerated; a server-side panic outside the harness accept loop or any client-side panic is detected through the worker's exit (crash_is_violation).",
     technique="bounded-exhaustive message-lattice, fault-schedule, byte-split and abort-point enumeration on real endpoints in virtual time with a reference-model oracle",
 )
